@@ -143,7 +143,7 @@ func specs() []*spec {
 		},
 		{
 			ID: "C02", Harness: "crdtsim", Level: "exploration",
-			Batch: 20, QuickSecs: 45, ThoroughSecs: 900, PlanTimeoutS: 60,
+			Batch: 10, QuickSecs: 45, ThoroughSecs: 900, PlanTimeoutS: 60,
 			DetSamples: 10, DetThreshold: 0.9,
 			RequiredProbes: []string{"observations", "queue_full", "bursts", "local_order_checked", "convergence_checked", "tracker_handoffs_checked", "datastore_write_failed", "partition", "untrusted_publisher_checked"},
 			Rule:           "plan = 1-4 real CRDT replicas (batching disabled | size-triggered 1-8 | age-triggered 50 ms-5 s, queue 1-64, rebroadcast 1-30 s, trust-all | explicit lists | one untrusted replica, single-writer or contended CIDs) + 8-100 steps: LogPin/LogUnpin, bursts of 2-10 operations in one instant mixing pin and unpin of the same CID (same batch window, queue overflow), partitions, heals, resets, latency skews, datastore write failures placed in the middle of a batch (skip k writes, fail n), Trust/Distrust; then everything is healed and left quiet for 2 x rebroadcast + 30 s. Non-trivial = >=1 operation and >=1 fault fired; distinct = distinct canonical trace digest.",
@@ -162,8 +162,8 @@ func specs() []*spec {
 		},
 		{
 			ID: "C07", Harness: "clustersim", Level: "exploration",
-			Parts: []part{{Harness: "clustersim", Share: 0.6, Batch: 4}, {Harness: "crdtsim", Share: 0.4, Batch: 20}},
-			Batch: 4, QuickSecs: 50, ThoroughSecs: 600, PlanTimeoutS: 120,
+			Parts: []part{{Harness: "clustersim", Share: 0.6, Batch: 1}, {Harness: "crdtsim", Share: 0.4, Batch: 10}},
+			Batch: 1, QuickSecs: 50, ThoroughSecs: 600, PlanTimeoutS: 120,
 			DetSamples: 8, DetThreshold: 0.9,
 			RequiredProbes: []string{"walks", "refusals", "allowed_calls", "trust_changes", "endpoints_found", "untrusted_publisher_checked"},
 			Rule:           "part 1 (clustersim): a real Cluster with a real Raft or CRDT consensus component (trust config: Raft | CRDT explicit list | empty list | trust-all) is called over libp2p by real gorpc clients; every RPC endpoint found by reflection over the five service types x {self, peer1, peer2} is called in a plan-chosen order (a complete walk of the table, repeated after plan-chosen Trust/Distrust calls) and each outcome is compared with what the statement dictates (untrusted: only identity, version and the join handshake; local-only endpoints refused to every remote caller; self never refused; refused means no effect on tracker, IPFS, blocks or pinset). part 2 (crdtsim): 2-4 CRDT replicas one of which nobody trusts publishes pins and unpins under partitions and latency skews; its updates must never show up at a replica that never trusted it. Non-trivial = >=1 call; distinct = distinct canonical trace digest.",
@@ -193,7 +193,7 @@ func specs() []*spec {
 		},
 		{
 			ID: "C14", Harness: "raftsim", Level: "exploration",
-			Batch: 1, QuickSecs: 45, ThoroughSecs: 600, PlanTimeoutS: 120,
+			Batch: 8, QuickSecs: 45, ThoroughSecs: 600, PlanTimeoutS: 120,
 			DetSamples: 8, DetThreshold: 0.9,
 			RequiredProbes: []string{"offline_state_checked", "exports", "started_on_import", "import_over_existing_state", "rotations_checked", "peerstore_round_trips", "malformed_peerstore_lines"},
 			Rule:           "plan = a pinset built by 1-12 generated LogPin/LogUnpin calls on a real single-peer Raft (all pin fields except origins), graceful stop (snapshot on shutdown), OfflineState, JSON export through the real StateManager, import into another base directory that may already hold a different pinset, a peer started on the imported snapshot; then 1-5 CleanupRaft calls with backups_rotate 1-6, 0..N pre-existing backups and 0-2 further writes before each; then a peerstore save/load round trip with 1-5 peers (ip and dns addresses, several per peer, priority order) and malformed lines mixed into the file. Non-trivial = >=1 operation; distinct = distinct canonical trace digest.",
